@@ -1063,7 +1063,7 @@ func main() {
 		return
 	}
 	repeats = run.Scale(2, 3)
-	n := run.Scale(2000, 20000)
+	n := run.Scale(1600, 20000)
 	for i := 0; i < n && hangs < 2; i++ {
 		cs := run.Rand.U64()
 		g, ops := genCase(common.NewRand(cs))
